@@ -131,7 +131,7 @@ def case_strategy(draw):
     sources = []
     for _ in range(nfiles):
         kind = draw(st.sampled_from(["good", "good", "good", "good.gz", "missing", "truncated", "garbage", "empty",
-                                     "damaged-exttype", "damaged-subtype", "joined"]))
+                                     "damaged-exttype", "damaged-subtype", "joined", "truncated.gz"]))
         recs = [draw(rec_spec()) for _ in range(draw(st.integers(0, 5)))] if kind not in ("missing", "garbage", "empty") else []
         sources.append({"kind": kind, "recs": recs, "cut": draw(st.integers(0, 10**6)),
                         "garbage": draw(st.binary(min_size=1, max_size=30)) if kind == "garbage" else b""})
@@ -172,7 +172,7 @@ def make_sources(case, tmp):
     paths, expected = [], []
     for i, s in enumerate(case["sources"]):
         kind = s["kind"]
-        p = os.path.join(tmp, "in%d.records%s" % (i, ".gz" if kind == "good.gz" else ""))
+        p = os.path.join(tmp, "in%d.records%s" % (i, ".gz" if kind in ("good.gz", "truncated.gz") else ""))
         recs = [build_rec(r) for r in s["recs"]]
         if kind == "missing":
             paths.append(os.path.join(tmp, "does-not-exist-%d.records" % i))
@@ -218,6 +218,27 @@ def make_sources(case, tmp):
             with open(p, "wb") as f:
                 f.write(data[:cut])
             frames, _ = refcodec.split_frames(data[:cut])
+            n = 0
+            for _, _, payload in frames:
+                try:
+                    v = refcodec.unpack_exact(payload)
+                    if not isinstance(v, bytes) and refcodec.decode_ext14(v)[0] == refcodec.T_RECORD:
+                        n += 1
+                except refcodec.FormatError:
+                    pass
+            recs = recs[:n]
+        if kind == "truncated.gz":
+            # cut in the COMPRESSED domain: what a standard inflater still recovers decides the intact prefix
+            from props.C04 import _inflate_prefix
+
+            data = open(p, "rb").read()
+            cut = s["cut"] % (len(data) + 1)
+            # (aim at the interesting region half of the time: the last bytes of the compressed file)
+            if s["cut"] % 2 and len(data) > 12:
+                cut = len(data) - 1 - (s["cut"] // 2) % 12
+            with open(p, "wb") as f:
+                f.write(data[:cut])
+            frames, _ = refcodec.split_frames(_inflate_prefix(data[:cut]))
             n = 0
             for _, _, payload in frames:
                 try:
@@ -387,7 +408,8 @@ def check(case, ctx, subprocess_mode=False):
             raise RuntimeError("harness: reference pipeline failed: %r" % (ref,))
         expected, n_in, n_kept = ref.value
         out = case["out"]
-        bad = sum(1 for s in case["sources"] if s["kind"] in ("missing", "truncated", "garbage", "empty", "damaged-exttype", "damaged-subtype"))
+        bad = sum(1 for s in case["sources"] if s["kind"] in ("missing", "truncated", "garbage", "empty", "damaged-exttype",
+                                                              "damaged-subtype", "truncated.gz"))
         ctx.cls("out:" + out, "bad-sources:%d" % bad, "multi-ts:%s" % case["multi_ts"], "split:%s" % bool(case["split"]),
                 "no-compile:%s" % case["no_compile"])
         for s in case["sources"]:
@@ -490,6 +512,8 @@ def check(case, ctx, subprocess_mode=False):
             if stdout != want:
                 raise Violation(base + "/stdout-differs", "%s: stdout %r, expected %r" % (what, stdout[:300], want[:300]),
                                 detail=_why(case, expected, n_kept))
+            if m == "csv":
+                check_csv_rows(stdout, expected, case, base, what)
             return
         files = [outp]
         if split:
@@ -536,8 +560,39 @@ def check(case, ctx, subprocess_mode=False):
             if data != want:
                 raise Violation(base + "/output-differs", "%s: output %r, expected %r" % (what, data[:300], want[:300]),
                                 detail=_why(case, expected, n_kept))
+            if out == "csvfile":
+                check_csv_rows(data, expected, case, base, what)
     finally:
         shutil.rmtree(tmp, ignore_errors=True)
+
+
+def check_csv_rows(data, records, case, base, what):
+    """CSV output against rows assembled WITHOUT the repository's CSV writer: for every run of records of one type a
+    header row with the field names, then one row per record whose cells are the text form of the values (the same
+    records come out whatever the writer). Both places where rdump may apply -F / -X are accepted."""
+    import csv
+
+    got = [row for row in csv.reader(io.StringIO(data.decode("utf-8", "surrogateescape"), newline="")) if row not in ([], [""])]
+
+    def rows(writer_level):
+        out, prev = [], None
+        for r in records:
+            keys = list(r.__slots__)
+            if writer_level:
+                if case["fields"]:
+                    keys = [k for k in case["fields"] if k in keys]
+                keys = [k for k in keys if k not in (case["exclude"] or [])]
+            if prev is None or prev != r._desc:
+                out.append(list(keys))
+                prev = r._desc
+            out.append(["" if getattr(r, k) is None else str(getattr(r, k)) for k in keys])
+        return [row for row in out if row not in ([], [""])]
+
+    if got != rows(False) and got != rows(True):
+        want = rows(False)
+        k = next((i for i, (a, b) in enumerate(zip(got, want)) if a != b), min(len(got), len(want)))
+        raise Violation(base + "/csv-rows-differ", "%s: a standard CSV parser reads %d rows, %d expected; first difference at row %d: "
+                        "%r vs %r" % (what, len(got), len(want), k, got[k:k + 1], want[k:k + 1]))
 
 
 def _jsonview(r, drop_generated):
